@@ -44,6 +44,9 @@ type Scenario struct {
 	Terms   []*Term
 	RootOf  []int  // iterator h is started from RootSeq(Terms[RootOf[h]]); equal entries share ONE Seq value
 	Threads [][]Op // ops per logical thread
+	// SharedValue: the Seq value of a (stateless) term is constructed ONCE, outside any
+	// thunk, and handed to Start several times: the loop values inside it are shared too
+	SharedValue bool `json:",omitempty"`
 }
 
 type genIface interface {
@@ -90,7 +93,11 @@ func mkIters(sc *Scenario, impl Impl) []genIface {
 	if impl == Real {
 		roots := make([]seq.Seq[int], len(sc.Terms))
 		for i, t := range sc.Terms {
-			roots[i] = RootSeq(t)
+			if sc.SharedValue {
+				roots[i] = toSeq(t, &state{})
+			} else {
+				roots[i] = RootSeq(t)
+			}
 		}
 		for h, r := range sc.RootOf {
 			its[h] = seq.Start(roots[r]).(seq.Generator[int])
